@@ -131,6 +131,11 @@ FIXED += [
   'a PAX global header entry named "x/pax_global_header" left an empty directory "x" in dst, and one named like an earlier link entry removed that link, although header records are not extracted'),
 ]
 
+FIXED += [
+ ("C02", "pack-failed", "fix: a link target that passes through a regular file leads nowhere, not outside",
+  'regression of the previous fix, found by the next thorough sweep: a dangling link "c -> ./d/../mod" with "d -> ./sub/../a" (sub a regular file) and "a -> ../." was taken to lead out of the tree and Pack refused the tree'),
+]
+
 OPEN = [
  # (property, key, what fails)
  ("C06", "edge-whitespace",
